@@ -99,8 +99,22 @@ def deep(f, o, d=6, inline=True):
     if k in ("ref", "cast"):
         return deep(f, o[1], d)
     if k == "place":
-        s = deep(f, o[1], d)
         projs = o[2]
+        base = o[1]
+        # `(a, b).0` is `a`
+        while base[0] == "agg" and base[1].get("agg") == "tuple" and projs and isinstance(projs[0], dict) and "f" in projs[0] and str(projs[0].get("name", "")).isdigit() and int(projs[0]["name"]) < len(base[1]["ops"]):
+            op_ = base[1]["ops"][int(projs[0]["name"])]
+            projs = projs[1:]
+            if op_place(op_) is None:
+                return str(op_.get("const", "const")) if not projs else "const"
+            base = f.origin_op(op_)
+            if base[0] == "place":
+                projs = list(base[2]) + list(projs)
+                base = base[1]
+        if not projs:
+            return deep(f, base, d, inline)
+        o = ("place", base, projs)
+        s = deep(f, o[1], d)
         if f.kind == "Closure" and o[1] == ("param", 1):
             up = f.upvar_names()
             for i, pr in enumerate(projs):
@@ -178,6 +192,75 @@ def _switch_on_call_result(f, bi, t):
                 none = tt["otherwise"]
             return some, none, b
     return None
+
+
+def option_tests(f, pred):
+    """tests of an Option value whose provenance expression satisfies pred: `match`/`if let` (a switch on its discriminant) as
+    well as `.is_some()` / `.is_none()`.  Returns (switch_block, some_edge, none_edge) triples."""
+    out = []
+    for b in sorted(f.reachable()):
+        tt = f.blocks[b]["term"]
+        if tt["k"] != "switch" or op_local(tt["discr"]) is None:
+            continue
+        dl = op_local(tt["discr"])
+        o = f.origin_local(dl)
+        if o[0] == "discr" and "Option" in (o[2].get("adt") or ""):
+            if pred(deep(f, o[1], 6)):
+                vs = o[2].get("variants") or {}
+                some = [tg for v, tg in tt["targets"] if vs.get(v) == "Some"] or [tt["otherwise"]]
+                none = [tg for v, tg in tt["targets"] if vs.get(v) == "None"] or [tt["otherwise"]]
+                out.append((b, some[0], none[0]))
+            continue
+        # bool from is_some / is_none (possibly negated)
+        neg = False
+        if o[0] == "unop" and o[1]["op"] == "Not":
+            neg = True
+            o = f.origin_op(o[1]["x"])
+        if o[0] == "call" and re.search(r"Option::<T>::(is_some|is_none)$", o[1].get("callee") or "") and pred(deep(f, o[1]["args"][0], 6)):
+            ft = [tg for v, tg in tt["targets"] if v == "0"]
+            if not ft:
+                continue
+            t_edge, f_edge = tt["otherwise"], ft[0]
+            if neg:
+                t_edge, f_edge = f_edge, t_edge
+            if o[1]["callee"].endswith("is_some"):
+                out.append((b, t_edge, f_edge))
+            else:
+                out.append((b, f_edge, t_edge))
+    return out
+
+
+def result_tests(f, pred):
+    """tests of a Result value (discriminant switch, `.is_ok()`, `.is_err()`): (switch_block, ok_edge, err_edge)"""
+    out = []
+    for b in sorted(f.reachable()):
+        tt = f.blocks[b]["term"]
+        if tt["k"] != "switch" or op_local(tt["discr"]) is None:
+            continue
+        o = f.origin_local(op_local(tt["discr"]))
+        if o[0] == "discr" and "Result" in (o[2].get("adt") or ""):
+            if pred(deep(f, o[1], 6)):
+                vs = o[2].get("variants") or {}
+                ok = [tg for v, tg in tt["targets"] if vs.get(v) == "Ok"] or [tt["otherwise"]]
+                er = [tg for v, tg in tt["targets"] if vs.get(v) == "Err"] or [tt["otherwise"]]
+                out.append((b, ok[0], er[0]))
+            continue
+        neg = False
+        if o[0] == "unop" and o[1]["op"] == "Not":
+            neg = True
+            o = f.origin_op(o[1]["x"])
+        if o[0] == "call" and re.search(r"Result::<T, E>::(is_ok|is_err)$", o[1].get("callee") or "") and pred(deep(f, o[1]["args"][0], 6)):
+            ft = [tg for v, tg in tt["targets"] if v == "0"]
+            if not ft:
+                continue
+            t_edge, f_edge = tt["otherwise"], ft[0]
+            if neg:
+                t_edge, f_edge = f_edge, t_edge
+            if o[1]["callee"].endswith("is_ok"):
+                out.append((b, t_edge, f_edge))
+            else:
+                out.append((b, f_edge, t_edge))
+    return out
 
 
 def _gt_test(f, want_l=None):
